@@ -7,6 +7,7 @@ mod fam_admin;
 mod fam_auth;
 mod fam_bank;
 mod fam_curve;
+mod fam_fees;
 mod fam_fx;
 mod fam_gate;
 mod fam_integr;
@@ -22,6 +23,7 @@ mod mon_c14;
 mod mon_c15;
 mod mon_c17;
 mod mon_c18;
+mod mon_c19;
 mod mon_c20;
 mod rng;
 mod scen;
@@ -68,6 +70,7 @@ fn main() {
                 "signer" => fam_auth::gen(&mut rng, n, &mut out),
                 "admin" => fam_admin::gen(&mut rng, n, &mut out),
                 "account" => fam_account::gen(&mut rng, n, &mut out),
+                "fees" => fam_fees::gen(&mut rng, n, &mut out),
                 "panic" => fam_panic::gen(&mut rng, n, &mut out),
                 _ => {
                     eprintln!("unknown family {}", fam);
@@ -105,6 +108,7 @@ fn main() {
                 "C15" => mon_c15::run(&mut rng, n, &mut rep),
                 "C17" => mon_c17::run(&mut rng, n, &mut rep),
                 "C18" => mon_c18::run(&mut rng, n, &mut rep),
+                "C19" => mon_c19::run(&mut rng, n, &mut rep),
                 "C20" => mon_c20::run(&mut rng, n, &mut rep),
                 _ => {
                     eprintln!("no monitor for {}", prop);
